@@ -92,6 +92,23 @@ fn mk_list(n: int) -> [int] {
 fn pair(a: str, b: bool) -> { s: str, b: bool } { new { s: a + "!", b: !b } }
 fn sum3(a: int, b: int, c: int) -> int { a * 100 + b * 10 + c }
 fn nothing(x: int) { let unused = x + 1; }
+let SLOTS = 0..8;
+let NAMES = ["a", "b", "c", "d"];
+fn first_at_least(n: int) -> int {
+    for s in SLOTS { if s >= n { return s; } }
+    0 - 1
+}
+fn count_slots() -> int { let c = 0; for s in SLOTS { c = c + 1; } c }
+fn find_name(n: str) -> int {
+    let i = 0;
+    for x in NAMES { if x == n { return i; } i = i + 1; }
+    0 - 1
+}
+fn find_hist(v: int) -> int {
+    let i = 0;
+    for x in hist { if x == v { break; } i = i + 1; }
+    i
+}
 let last: [int] = [0];
 fn remember(x: int) { last = [x]; }
 fn recall() -> int { last[0] }
@@ -207,7 +224,34 @@ func c16GenOp(s *simrt.Sim, m *c16Model, pfault int, force int) c16Op {
 			// handled by the caller: print fault / cancel fault on an ordinary op
 		}
 	}
-	switch pick(25, "op") {
+	switch pick(29, "op") {
+	case 25:
+		n := []int64{0, 1, 3, 7, 8, 9}[pick(6, "arg")]
+		want := int64(-1)
+		if n <= 7 {
+			want = n
+		}
+		return c16Op{reusable: true, fn: "first_at_least", args: []value.Value{vInt(n)}, desc: fmt.Sprintf("first_at_least(%d)", n), check: wantInt(want)}
+	case 26:
+		return c16Op{reusable: true, fn: "count_slots", desc: "count_slots()", check: wantInt(8)}
+	case 27:
+		names := []string{"a", "b", "c", "d", "zz"}
+		i := pick(5, "arg")
+		want := int64(i)
+		if i == 4 {
+			want = -1
+		}
+		return c16Op{reusable: true, fn: "find_name", args: []value.Value{vStr(names[i])}, desc: fmt.Sprintf("find_name(%q)", names[i]), check: wantInt(want)}
+	case 28:
+		x := intArgs[pick(len(intArgs), "arg")]
+		want := int64(len(m.log))
+		for i, e := range m.log {
+			if e == x {
+				want = int64(i)
+				break
+			}
+		}
+		return c16Op{fn: "find_hist", args: []value.Value{vInt(x)}, desc: fmt.Sprintf("find_hist(%d)", x), check: wantInt(want)}
 	case 21:
 		x := intArgs[pick(len(intArgs), "arg")]
 		return c16Op{fn: "remember", args: []value.Value{vInt(x)}, desc: fmt.Sprintf("remember(%d)", x), check: wantNull, apply: func(m *c16Model) { m.last = x }}
@@ -505,6 +549,19 @@ func runC16(t *testing.T, spec RunSpec) *Verdict {
 		n := 1 + s.Choose(maxLen, "histlen")
 		var prev *c16Op
 		var prevInv *runtime.FunctionInvocation
+		type heldValue struct {
+			from string
+			v    value.Value
+			disp string
+		}
+		var held []heldValue
+		defer func() {
+			for _, h := range held {
+				if d, derr := h.v.Display(); derr == nil && d != h.disp && viol == nil {
+					failNow("wrong-result", "returned-value-is-the-hosts", "aliased", fmt.Sprintf("the value returned by %s changed after later calls: it was %q, now it is %q", h.from, clip(h.disp), clip(d)))
+				}
+			}
+		}()
 		for k := 0; k < n && viol == nil; k++ {
 			op := c16GenOp(s, m, pfault, spec.P("force_op", -1))
 			reuse := false
@@ -637,6 +694,21 @@ func runC16(t *testing.T, spec RunSpec) *Verdict {
 				if msg := op.check(result.ReturnValue); msg != "" {
 					failNow("wrong-result", "call-result", op.fn, fmt.Sprintf("call #%d %s %s", k, op.desc, msg))
 					return
+				}
+				// What the host got is the host's: keep it (it must still be the same value at the end of the
+				// history) or scribble on it (later calls must not see that).
+				switch rv := result.ReturnValue.(type) {
+				case value.ValueList:
+					if s.Choose(2, "scribble") == 1 {
+						*rv.Values = append(*rv.Values, value.NewValueInt(-424242))
+						s.Probe("host-scribbled-on-returned-list")
+					} else if d, derr := rv.Display(); derr == nil {
+						held = append(held, heldValue{fmt.Sprintf("call #%d %s", k, op.desc), rv, d})
+					}
+				case value.ValueObject:
+					if d, derr := rv.Display(); derr == nil {
+						held = append(held, heldValue{fmt.Sprintf("call #%d %s", k, op.desc), rv, d})
+					}
 				}
 				if op.apply != nil {
 					op.apply(m)
